@@ -69,6 +69,7 @@ type SpecFunc struct {
 	Body   CExpr // nil for uninterpreted
 	Pkg    string
 	Src    string
+	Reads  []string // heap array patterns the (uninterpreted) function depends on: one function symbol per state of these arrays
 }
 
 type TypeDecl struct {
@@ -542,6 +543,12 @@ func (cs *Contracts) parseSpec(path string, ln int, pkg, rest string) {
 		return
 	}
 	sf := &SpecFunc{Name: m[2], Ret: strings.TrimSpace(m[4]), Pkg: pkg, Src: rest}
+	if i := strings.Index(sf.Ret, " reads "); i >= 0 {
+		for _, r := range strings.Split(sf.Ret[i+7:], ",") {
+			sf.Reads = append(sf.Reads, strings.TrimSpace(r))
+		}
+		sf.Ret = strings.TrimSpace(sf.Ret[:i])
+	}
 	if strings.TrimSpace(m[3]) != "" {
 		for _, p := range strings.Split(m[3], ",") {
 			p = strings.TrimSpace(p)
